@@ -417,8 +417,8 @@ PROPS = {
         "assumptions": ["events carry a non-nil tag list (Event.Valid); invalid UTF-8 cannot pass the gate", "ids/pubkeys/sigs in lower-case hex for the monitors (upper case is compared with the model only)"],
     },
     "C12": {
-        "lean_modules": ["MocProps.C12", "MocProps.C12Out"], "theorem_files": ["MocProps/C12.lean", "MocProps/C12Out.lean"],
-        "gen_groups": ["Gate", "Serialize", "Valid", "Codec", "Consts"], "harness_prop": "ws", "driver_prop": "ws",
+        "lean_modules": ["MocProps.C12", "MocProps.C12Out", "MocProps.C12Loop"], "theorem_files": ["MocProps/C12.lean", "MocProps/C12Out.lean", "MocProps/C12Loop.lean"],
+        "gen_groups": ["Gate", "Serialize", "Valid", "Codec", "Consts", "Sites"], "harness_prop": "ws", "driver_prop": "ws",
         "monitors": ["gate"],
         "n_quick": 1200, "n_thorough": 12000, "thorough_seeds": 3,
         "rule": WS_RULE,
@@ -426,7 +426,9 @@ PROPS = {
                       "message which, if an EVENT, verifies (gate_forwards_iff); every other frame yields exactly one NOTICE and nothing else (gate_rejects_otherwise); over a session the handler "
                       "receives exactly the acceptable frames, once each, in order, and forwarded + rejected = frames sent (session_inbound, session_order). Tests and NOTICE texts are regenerated "
                       "from relay.go. Outbound: for every server message whose integers fit the wire types, the decoder of its type applied to its encoding yields the same wire content "
-                      "(outbound_decodes_same; OK/CLOSED as prefix++text) and the decoder of every other type rejects it (outbound_not_confused) - on JSON trees. WebSocket framing, the "
+                      "(outbound_decodes_same; OK/CLOSED as prefix++text) and the decoder of every other type rejects it (outbound_not_confused) - on JSON trees. The write loop never waits for "
+                      "the peer in its own goroutine (write_loop_never_waits_for_peer, over the regenerated list of its synchronous calls: the structural reason of defect D16) and 15 % of the "
+                      "generated sessions run with a 15 ms ping interval, so rejections meet pings in flight. WebSocket framing, the "
                       "read/write goroutines and the byte-level JSON encoding are runtime-validated over real connections with per-frame barriers.",
         "level_note": "Trusted: Lean kernel + standard axioms; go2lean; harness/driver; coder/websocket; utf8.Valid/json.Valid verdicts are taken from the standard library by the harness.",
         "assumptions": ["frames stay within the configured size limit; the rate limiter is configured out of the way"],
